@@ -5,6 +5,7 @@
   is echoed. Core Lean only.
 -/
 import Cosi.Driver.Store
+import Cosi.Driver.Watch
 
 open Cosi
 
@@ -14,7 +15,8 @@ structure Engine where
   step : σ → String → List (String × String) → σ × String
 
 def engines : List (String × Engine) := [
-  ("store-seq", ⟨Driver.Store.St, Driver.Store.init, Driver.Store.stepLine⟩)
+  ("store-seq", ⟨Driver.Store.St, Driver.Store.init, Driver.Store.stepLine⟩),
+  ("watch", ⟨WSys, Driver.Watch.init, Driver.Watch.stepLine⟩)
 ]
 
 partial def loop (e : Engine) (spec : Bool) (inp : IO.FS.Stream) (out : IO.FS.Stream) (st : e.σ) : IO Unit := do
